@@ -491,9 +491,10 @@ impl Prop for C11 {
             }
         }
         // machines at the documented size limit: exactly 1 MiB and one byte less (once per run)
-        if !self.boundary_done && (cx.shard == 2 % cx.nshards) {
+        if !self.boundary_done {
             self.boundary_done = true;
-            for (target, compressible) in [
+            // dealt over the shards: entry i is built by shard (i + 2) mod nshards
+            for (idx, (target, compressible)) in [
                 (MIB as u64, false),
                 (MIB as u64 - 1, false),
                 (MIB as u64 - 2, false),
@@ -502,7 +503,13 @@ impl Prop for C11 {
                 (900_000, true),
                 (500_000, true),
                 (100_000, true),
-            ] {
+            ]
+            .into_iter()
+            .enumerate()
+            {
+                if (idx as u64 + 2) % cx.nshards != cx.shard {
+                    continue;
+                }
                 match machine_of_exact_size(&mut r, target, compressible) {
                     Some(m) => {
                         out.evaluations += 1;
